@@ -1,3 +1,5 @@
+//go:build !verif_nocomb
+
 package main
 
 import (
